@@ -321,7 +321,32 @@ def chained_trace(rng, case, b1name, b2name):
 
 
 def rejected_trace(kind):
-    """weak variable / variable without distribution: transform must be rejected."""
+    """weak variable / variable without distribution / variable that belongs to a model: transform must be rejected -
+    and a model the variable belongs to must be left exactly as it was (also its pending updates)."""
+    if kind == "frozen":
+        s_ = lsl.Var(jnp.float32(1.0), name="s")
+        c = lsl.Var(lsl.Calc(lambda v: 2.0 * v, s_), name="c")
+        x = lsl.Var(jnp.float32(0.7), lsl.Dist(tfd.Exponential, rate=c), name="x")
+        x.parameter = True
+        m = lsl.GraphBuilder().add(x).build_model()
+        m.auto_update = False
+        m.vars["s"].value = jnp.float32(5.0)          # a pending update
+        hdr = {"case": "frozen", "bij": "exp_instance", "mode": "instance", "has_dist": True, "parameter": True, "observed": False,
+               "weak": False, "frozen": True}
+        snap = lambda: {k: (None if v.value is None else [float(z) for z in np.ravel(np.asarray(v.value))], bool(v.outdated))  # noqa: E731
+                        for k, v in m.state.items()}
+        before = snap()
+        e = {"ev": "transform", "bij": "exp_instance"}
+        try:
+            x.transform(tfb.Exp())
+            e.update({"ok": True, "reason": "none"})
+        except RuntimeError as ex:
+            e.update({"ok": False, "reason": "frozen" if "is part of a model" in str(ex) else str(ex)[:80]})
+        e["model_unchanged"] = snap() == before
+        e["names"] = ["x"]
+        e["flags"] = {"x": {"weak": bool(x.weak), "has_dist": bool(x.has_dist), "parameter": bool(x.parameter),
+                            "observed": bool(x.observed)}}
+        return {"hdr": hdr, "ev": [e]}
     if kind == "weak":
         base = lsl.Var(jnp.float32(1.0), name="base")
         x = lsl.Var(lsl.Calc(lambda b: b + 1.0, base), lsl.Dist(tfd.Exponential, rate=1.0), name="x")
